@@ -109,7 +109,7 @@ theorem filter_const_false {α : Type} (l : List α) : l.filter (fun _ => false)
 theorem constructChr_fixed (cfg : Cfg) (rs : Bool) (c : Chr) (fs : FS) (hb : (rs && fs.has (.processed c)) = false) :
     constructChr fixed cfg rs c fs =
       Act.load (.multimap c) :: evs (constructHead cfg c) ++ [Act.load (.save c)] ++
-        evs (constructTail cfg c (tokOf (fs.good .info)) ++ [Ev.create (.processed c)]) := by
+        evs (constructTail cfg c (tokOf (fs.good .info && refOK cfg fs)) ++ [Ev.create (.processed c)]) := by
   simp [constructChr, hb, fixed, constructHead, constructTail, filter_const_true, filter_const_false]
 
 /-- paths written by the model construction of chromosome `c` -/
@@ -163,7 +163,7 @@ theorem eventsOf_loads_nil (ps : List Path) : eventsOf (ps.map Act.load) = [] :=
   | cons p ps ih => simpa [eventsOf] using ih
 
 theorem constructChr_stage {cfg : Cfg} (rs : Bool) {fs : FS} (h : J cfg fs) {c : Chr} (hc : c ∈ cfg.chrs)
-    (hsv : SavesOK cfg fs) (hnp : rs = false → fs.has (.processed c) = false) :
+    (hsv : SavesOK cfg fs) (hnp : rs = false → fs.has (.processed c) = false) (href : refOK cfg fs = true) :
     Good cfg fs (runActs (constructChr fixed cfg rs c fs) fs) ∧
       (runActs (constructChr fixed cfg rs c fs) fs).fs.has (.processed c) = true ∧
       (∀ p, Tcon c p = false → (runActs (constructChr fixed cfg rs c fs) fs).fs p = fs p) := by
@@ -188,7 +188,7 @@ theorem constructChr_stage {cfg : Cfg} (rs : Bool) {fs : FS} (h : J cfg fs) {c :
       | false => exact hnp rfl
       | true => simpa using hb
     rw [constructChr_fixed cfg rs c fs hb']
-    have ht : tokOf (fs.good .info) = .good := by simp [tokOf, hinfo]
+    have ht : tokOf (fs.good .info && refOK cfg fs) = .good := by simp [tokOf, hinfo, href]
     rw [ht]
     generalize hA : constructHead cfg c = A
     generalize hX : constructTail cfg c .good = X
@@ -224,7 +224,7 @@ theorem constructChr_stage {cfg : Cfg} (rs : Bool) {fs : FS} (h : J cfg fs) {c :
 
 theorem construct_loop {cfg : Cfg} (rs : Bool) (cs : List Chr) (hsub : ∀ c ∈ cs, c ∈ cfg.chrs) (nd : cs.Nodup)
     {fs : FS} (h : J cfg fs) (hsv : SavesOK cfg fs)
-    (hnp : rs = false → ∀ c ∈ cs, fs.has (.processed c) = false) :
+    (hnp : rs = false → ∀ c ∈ cs, fs.has (.processed c) = false) (href : refOK cfg fs = true) :
     Good cfg fs (runStages (cs.map (constructChr fixed cfg rs)) fs) ∧
       (∀ c ∈ cs, (runStages (cs.map (constructChr fixed cfg rs)) fs).fs.has (.processed c) = true) ∧
       (∀ p, (∀ c ∈ cs, Tcon c p = false) → (runStages (cs.map (constructChr fixed cfg rs)) fs).fs p = fs p) := by
@@ -232,7 +232,9 @@ theorem construct_loop {cfg : Cfg} (rs : Bool) (cs : List Chr) (hsub : ∀ c ∈
   | nil => exact ⟨⟨rfl, h⟩, fun c hc => by simp at hc, fun _ _ => rfl⟩
   | cons c cs ih =>
     have nd' := List.nodup_cons.mp nd
-    obtain ⟨g1, p1, f1⟩ := constructChr_stage rs h (hsub c (by simp)) hsv (fun e => hnp e c (by simp))
+    obtain ⟨g1, p1, f1⟩ := constructChr_stage rs h (hsub c (by simp)) hsv (fun e => hnp e c (by simp)) href
+    have href' : refOK cfg (runActs (constructChr fixed cfg rs c fs) fs).fs = true := by
+      simp only [refOK, FS.good] at href ⊢; rw [f1 _ rfl]; exact href
     have hne : ∀ c' ∈ cs, c' ≠ c := fun c' hc' e => nd'.1 (e ▸ hc')
     have hsv' : SavesOK cfg (runActs (constructChr fixed cfg rs c fs) fs).fs :=
       savesOK_frame hsv (f1 _ rfl) (fun _ => f1 _ rfl) (fun _ => f1 _ rfl)
@@ -240,7 +242,7 @@ theorem construct_loop {cfg : Cfg} (rs : Bool) (cs : List Chr) (hsub : ∀ c ∈
       intro e c' hc'
       simp only [FS.has]; rw [f1 _ (by simp [Tcon, hne c' hc'])]
       exact hnp e c' (by simp [hc'])
-    obtain ⟨g2, p2, f2⟩ := ih (fun c' hc' => hsub c' (by simp [hc'])) nd'.2 (good_J_acts g1) hsv' hnp'
+    obtain ⟨g2, p2, f2⟩ := ih (fun c' hc' => hsub c' (by simp [hc'])) nd'.2 (good_J_acts g1) hsv' hnp' href'
     simp only [List.map_cons]
     obtain ⟨g, hfs⟩ := good_cons g1 g2
     refine ⟨g, ?_, ?_⟩
